@@ -56,6 +56,24 @@ func docOf(members ...string) string { return "{" + strings.Join(members, ",") +
 
 func c16Check(c *C16Case) string {
 	switch c.Family {
+	case "kindswitch":
+		var prog string
+		switch c.Keys[0] {
+		case "forin":
+			prog = `{ for (v in $) print v.length() }`
+		case "reassign":
+			prog = `{ for (i = 0; i < $.length(); i++) { v = $[i]; print v.length() } }`
+		case "param":
+			prog = `function ln(p) { return p.length() } { for (i = 0; i < $.length(); i++) print ln($[i]) }`
+		default:
+			prog = `{ h = {cur: 0}; for (i = 0; i < $.length(); i++) { h.cur = $[i]; print h.cur.length() } }`
+		}
+		o := run.InProc("BEGINFILE { $ = [$] }\n"+prog, []run.InFile{{Name: "in", Data: []byte(c.S)}}, nil, run.Opts{Budget: implBudget})
+		want := strings.ReplaceAll(c.Sep, " ", "\n") + "\n"
+		if o.Class != "ok" || string(o.Stdout) != want {
+			return fmt.Sprintf("length() through one name (%s) over the values %s: outcome %s %s, lengths %q, want %q", c.Keys[0], c.S, o.Class, o.Msg, strings.ReplaceAll(string(o.Stdout), "\n", " "), c.Sep)
+		}
+		return ""
 	case "rawsplit":
 		// observed through lengths and an in-program re-join (JSON cannot carry the bytes)
 		prog := "BEGIN { s = \"" + c.S + "\"; sep = \"" + c.Sep + "\"; p = s.split(sep); j = \"\"; n = 0\n" +
@@ -355,10 +373,37 @@ func c16String() *rapid.Generator[string] {
 }
 
 func genC16(t *rapid.T) (*C16Case, []string) {
-	fam := rapid.SampledFrom([]string{"string", "string", "number", "number", "pluck", "num", "rawsplit"}).Draw(t, "family")
+	fam := rapid.SampledFrom([]string{"string", "string", "number", "number", "pluck", "num", "rawsplit", "kindswitch"}).Draw(t, "family")
 	c := &C16Case{Family: fam}
 	var labels []string
 	switch fam {
+	case "kindswitch":
+		// length() looked up again and again through one name whose value changes kind
+		n := rapid.IntRange(2, 6).Draw(t, "nkinds")
+		var lits, lens []string
+		for k := 0; k < n; k++ {
+			size := rapid.IntRange(0, 4).Draw(t, "ksize")
+			switch rapid.IntRange(0, 2).Draw(t, "kkind") {
+			case 0:
+				str := rapid.SampledFrom([]string{"", "a", "héllo", "日本", "abcd"}).Draw(t, "kstr")
+				lits = append(lits, gen.JSONString(str))
+				lens = append(lens, fmt.Sprint(len(str)))
+			case 1:
+				lits = append(lits, "["+strings.TrimSuffix(strings.Repeat("0,", size), ",")+"]")
+				lens = append(lens, fmt.Sprint(size))
+			default:
+				var kv []string
+				for j := 0; j < size; j++ {
+					kv = append(kv, fmt.Sprintf("\"k%d\":%d", j, j))
+				}
+				lits = append(lits, "{"+strings.Join(kv, ",")+"}")
+				lens = append(lens, fmt.Sprint(size))
+			}
+		}
+		c.S = "[" + strings.Join(lits, ",") + "]"
+		c.Sep = strings.Join(lens, " ")
+		c.Keys = []string{rapid.SampledFrom([]string{"forin", "reassign", "param", "element"}).Draw(t, "kform")}
+		labels = append(labels, "nontrivial")
 	case "rawsplit":
 		// any bytes (also bytes that are not UTF-8) as a string literal of the program
 		n := rapid.IntRange(0, 7).Draw(t, "rawlen")
@@ -527,7 +572,7 @@ func genC16Misuse(t *rapid.T) *DCase {
 
 func TestC16(t *testing.T) {
 	rec := start(t, "C16", "exploration",
-		"contract families with direct oracles: strings (ASCII, multi-byte, arbitrary valid UTF-8; separators empty, 1-3 bytes, equal to the string, substrings, overlapping like \"aaa\".split(\"aa\")): length = byte count, upper/lower = Unicode case mapping + an independent ASCII table + idempotence + receiver unchanged, split = no piece contains sep AND join == s AND equality with the greedy split (empty sep: the UTF-8 characters; for receivers given as raw bytes of the program text, also not UTF-8: piece count, total piece bytes and in-program re-join), also right after an earlier result of the same call was modified; numbers (halves of both signs, 0.49999999999999994, +-(2^52+0.5), >= 2^53, tiny, strata): floor/ceil/round checked with exact rational arithmetic (math/big), halves away from zero; pluck: objects x key lists with present, absent, repeated, numeric and method-named keys -> exact model, receiver unchanged, length = key count; num(s): numeric strings -> nearest double (exact rational oracle), non-numeric -> null, exotic not asserted; misuse: every method and builtin x receivers of every kind x 0-3 arguments of every kind -> value or RuntimeError (and equal to refjq where specified). Non-trivial per family: separator >= 2 times or at an end, multi-byte text; |x| with fraction .5 or >= 2^52; key list mixing present/absent or repeated; numeric string. distinct = distinct case.")
+		"contract families with direct oracles: strings (ASCII, multi-byte, arbitrary valid UTF-8; separators empty, 1-3 bytes, equal to the string, substrings, overlapping like \"aaa\".split(\"aa\")): length = byte count, upper/lower = Unicode case mapping + an independent ASCII table + idempotence + receiver unchanged, split = no piece contains sep AND join == s AND equality with the greedy split (empty sep: the UTF-8 characters; for receivers given as raw bytes of the program text, also not UTF-8: piece count, total piece bytes and in-program re-join), also right after an earlier result of the same call was modified; length() looked up repeatedly through one variable, loop variable, parameter or member whose value changes between strings, arrays and objects; numbers (halves of both signs, 0.49999999999999994, +-(2^52+0.5), >= 2^53, tiny, strata): floor/ceil/round checked with exact rational arithmetic (math/big), halves away from zero; pluck: objects x key lists with present, absent, repeated, numeric and method-named keys -> exact model, receiver unchanged, length = key count; num(s): numeric strings -> nearest double (exact rational oracle), non-numeric -> null, exotic not asserted; misuse: every method and builtin x receivers of every kind x 0-3 arguments of every kind -> value or RuntimeError (and equal to refjq where specified). Non-trivial per family: separator >= 2 times or at an end, multi-byte text; |x| with fraction .5 or >= 2^52; key list mixing present/absent or repeated; numeric string. distinct = distinct case.")
 	defer rec.Finish()
 	rec.Assume("Go's unicode tables for non-ASCII case mapping; math/big for exact arithmetic; json() as the observation device (its own correctness is C04's subject)")
 	rec.Replayer("contract", func(raw json.RawMessage) error {
